@@ -29,7 +29,7 @@ def run(ctx):
     q = ctx.quick
     ctx.level = "other"
     ctx.rule = ("TLC states the trajectory of each model kind as a symbolic term (Trajectory.tla: reparametrized age, logistic / "
-                "linear / shared-speed logistic curve of one feature) and enumerates every request of 1-3 <<individual, age>> "
+                "linear / shared-speed logistic curve of one feature) and enumerates every request of 1-3 (1-4 in the thorough tier) <<individual, age>> "
                 "pairs (2 individuals, 3 ages; interleaved, repeated, unsorted) in dict and MultiIndex form, checking EchoIdsAndAges "
                 "and OrderPreserved of the layout machine; each enumerated request is run through model.estimate on one model "
                 "object per configuration whose parameters are replaced in place (load_parameters) before every request, with "
@@ -48,7 +48,7 @@ def run(ctx):
         ctx.violation({"check": "design", "invariant": res.violated[0]}, f"Trajectory.tla violates {res.violated}", replay=res.trace_text[:3000])
     ecfg = os.path.join(tmp, "enum.cfg")
     with open(ecfg, "w") as f:
-        f.write(CFG_E)
+        f.write(CFG_E if q else CFG_E.replace("Requests <- MCRequests", "Requests <- MCRequests4"))
     _, cs = cases.enumerate_cases("MC_Trajectory", ecfg, tmp, "traj")
     rnd = random.Random(ctx.seed)
     configs = ["logistic_diag_src1", "linear_scalar_src1", "shared_speed_src1"] if q else list(tj.KIND_OF)
